@@ -236,7 +236,7 @@ def case_headers(case, res):
                         res.violation('headers:' + bad[0], dict(kind='headers1', start=start,
                                                                 count=count, cp=cp,
                                                                 stale_tail=case.get('stale_tail', False)),
-                                      dict(start=start, count=count, cp=cp, **bad[1]))
+                                      {**bad[1], "start": start, "count": count, "cp": cp})
         res.distinct('parts', 'headers')
     finally:
         s.close()
@@ -393,14 +393,34 @@ def case_inflight(case, res):
             s.loop.run_job(job, deliver=False)
         after = base + more[:1]
         s.daemon.set_chain(after)
+        if variant == 'stall-mid-notify':
+            # the read (made before the block) is handed over while the block's notification
+            # is waiting for its own header read
+            def header_read_pending():
+                return any(getattr(j.func, '__name__', '') == 'read_headers' and not j.held
+                           for j in s.loop.pending_jobs())
+            for _ in range(40):
+                if s.run_idle(until=header_read_pending):
+                    break
+                if not s.loop.fire_polling_timer():
+                    break
+            hdr = [j for j in s.loop.pending_jobs()
+                   if getattr(j.func, '__name__', '') == 'read_headers']
+            if not hdr:
+                raise common.Broken('the notification never read the new header')
+            hdr[0].held = True
+            job.deliver()
+            while s.loop.step_ready():
+                pass
+            hdr[0].held = False
         s.settle()
         if s.db.state.height != len(after) - 1:
             raise common.Broken('the block was not indexed while the read was in flight')
-        if c.reply(rid) is not None:
+        if variant != 'stall-mid-notify' and c.reply(rid) is not None:
             raise common.Broken('the request was answered although its read was kept back')
         if variant == 'hold':
             job.held = False
-        else:
+        elif variant == 'stall':
             job.deliver()
         s.settle()
         res.count('inflight_history_requests')
@@ -462,7 +482,7 @@ def cases_for(tier):
             cases.append(dict(kind='history', config=config, order=order))
     for config in CONFIGS:
         for n in LENGTHS:
-            for variant in ('hold', 'stall'):
+            for variant in ('hold', 'stall', 'stall-mid-notify'):
                 for m in ('get_history', 'subscribe'):
                     for other in (False, True):
                         cases.append(dict(kind='inflight', config=config, n=n, variant=variant,
